@@ -757,6 +757,10 @@ def lower_lazy_next(prog, d, max_sites=40):
                 break
             kind, payload = ds[0][1], ds[0][2]
             if kind == "call":
+                if _callee(payload).endswith("IntoIterator>::into_iter") and len(payload["args"]) == 1 and not payload["dest"]["proj"]:
+                    # `for x in lazily_built_iterator`: into_iter() of an iterator is the iterator itself
+                    op = payload["args"][0]
+                    continue
                 it = (n, ds[0][0], payload)
                 break
             rv = payload["rv"]
